@@ -224,9 +224,27 @@ impl<'g> Analysis<'g> {
             }
         }
         // left recursion outside @leftrec
+        // (a cycle is fine when it passes through a @leftrec rule: "direct, or indirect through non-memoized rules")
+        let gr = self.left_call_graph();
+        let is_leftrec = |n: &str| g.rule(n).map(|r| r.flags().leftrec).unwrap_or(false);
         for n in self.left_recursive_rules() {
-            let ok = g.rule(&n).map(|r| r.flags().leftrec).unwrap_or(false);
-            if !ok {
+            if is_leftrec(&n) {
+                continue;
+            }
+            // is n on a cycle that avoids every @leftrec rule?
+            let mut seen = BTreeSet::new();
+            let mut stack: Vec<String> = gr[&n].iter().filter(|m| !is_leftrec(m)).cloned().collect();
+            while let Some(m) = stack.pop() {
+                if !seen.insert(m.clone()) {
+                    continue;
+                }
+                if let Some(next) = gr.get(&m) {
+                    stack.extend(next.iter().filter(|k| !is_leftrec(k)).cloned());
+                }
+            }
+            // a rule on the cycle that is memoized would be evaluated inside the growth loop: outside the quantifier
+            let memo = g.rule(&n).map(|r| r.flags().memoize).unwrap_or(false);
+            if seen.contains(&n) || memo {
                 out.push(Problem::LeftRecursion(n));
             }
         }
